@@ -133,6 +133,8 @@ def quick_rejects(chk: Check, rule: str, f: FuncInfo, key: str, at: bool, bias: 
             t, val = t.operand, not val
         if attr_path(t) == (tree,):
             return (True, "empty tree") if not val else (None, "tree not empty")
+        if isinstance(t, ast.Call) and not t.args and not t.keywords and attr_path(t.func) == (tree, "is_empty"):
+            return (True, "empty tree") if val else (None, "tree not empty")
         if isinstance(t, ast.Compare) and len(t.ops) == 1 and isinstance(t.left, ast.Call) and \
                 attr_path(t.left.func) == ("len",) and t.left.args and attr_path(t.left.args[0]) == (tree,) and \
                 isinstance(t.comparators[0], ast.Constant) and t.comparators[0].value == 0 and \
